@@ -4,6 +4,7 @@ import (
 	"encoding/binary"
 	"fmt"
 	"runtime"
+	"strings"
 )
 
 // Listed findings of C06 (findings/C06.txt) that this file re-observes on
@@ -11,6 +12,7 @@ import (
 const (
 	knownNdbQuadratic = "ndb-quadratic-checksum"
 	knownRpmQuadratic = "rpm-header-quadratic"
+	knownRpmFilenames = "rpm-filenames-quadratic"
 )
 
 // allocDuring runs f and returns the bytes allocated meanwhile (the harness is
@@ -63,6 +65,64 @@ func wantedAllocEstimate(b []byte) uint64 {
 		default:
 			total += ct
 		}
+	}
+	return total
+}
+
+// filenameWork is the number of bytes the file-name loop of Info.Load joins:
+// for every base name the length of the directory name its index selects, the
+// base name and the separator (the last Dirnames / Basenames / Dirindexes entry
+// wins, as in Load).
+func filenameWork(b []byte) uint64 {
+	if len(b) < 8 {
+		return 0
+	}
+	n := int(binary.BigEndian.Uint32(b))
+	dsz := int(binary.BigEndian.Uint32(b[4:]))
+	if n > 0xffff || 8+16*n+dsz > len(b) {
+		return 0
+	}
+	data := b[8+16*n : 8+16*n+dsz]
+	strs := func(off, ct int) []string {
+		var out []string
+		for off >= 0 && off < len(data) && len(out) < ct {
+			i := off
+			for i < len(data) && data[i] != 0 {
+				i++
+			}
+			out = append(out, string(data[off:i]))
+			off = i + 1
+		}
+		return out
+	}
+	var dirs, bases []string
+	var idx []int32
+	for i := 0; i < n; i++ {
+		e := b[8+16*i:]
+		tag := int32(binary.BigEndian.Uint32(e))
+		off := int(int32(binary.BigEndian.Uint32(e[8:])))
+		ct := int(binary.BigEndian.Uint32(e[12:]))
+		if ct > dsz {
+			continue
+		}
+		switch tag {
+		case tagDirnames:
+			dirs = strs(off, ct)
+		case tagBasenames:
+			bases = strs(off, ct)
+		case tagDirindexes:
+			idx = idx[:0]
+			for k := 0; k < ct && off >= 0 && off+4*k+4 <= len(data); k++ {
+				idx = append(idx, int32(binary.BigEndian.Uint32(data[off+4*k:])))
+			}
+		}
+	}
+	var total uint64
+	for j, bn := range bases {
+		if j >= len(idx) || idx[j] < 0 || int(idx[j]) >= len(dirs) {
+			break
+		}
+		total += uint64(len(dirs[idx[j]]) + len(bn) + 1)
 	}
 	return total
 }
@@ -145,6 +205,28 @@ func (h *harness) knownWitnesses() {
 				len(b), nent, dsz, alloc, alloc/uint64(len(b)), out))
 		} else {
 			h.r.Count("known-not-reproduced:" + knownRpmQuadratic)
+		}
+	}
+	// rpm header: 400 base names x.jar that all select one 8000-byte directory name.
+	{
+		const nb = 400
+		dir := "/" + strings.Repeat("a/", 4000)
+		bases := make([]string, nb)
+		for i := range bases {
+			bases[i] = "x.jar"
+		}
+		b := buildRpmHeader([]rpmEntry{
+			{tagName, typString, 1, cstr("n")},
+			{tagDirindexes, typInt32, nb, be32s(make([]int32, nb)...)},
+			{tagBasenames, typStringArray, nb, cstr(bases...)},
+			{tagDirnames, typStringArray, 1, cstr(dir)}}, 0)
+		var out string
+		alloc := allocDuring(func() { out = h.rpmHdrRun(newLimit(b, 1<<30), nil) })
+		if out != "panic" && out != "hang" && alloc > rpmAllocBound(len(b)) && filenameWork(b)*8 >= alloc-rpmAllocBound(len(b)) {
+			h.r.KnownSeen(knownRpmFilenames, fmt.Sprintf("rpm header of %d bytes, %d base names x.jar under one %d-byte directory name: Info.Load allocated %d bytes (%dx the header), %d file names out=%.16s",
+				len(b), nb, len(dir), alloc, alloc/uint64(len(b)), nb, out))
+		} else {
+			h.r.Count("known-not-reproduced:" + knownRpmFilenames)
 		}
 	}
 }
